@@ -34,6 +34,19 @@ namespace nmtools::array
         view_type view;
         context_type context;
 
+        // the packed loops walk data() linearly, which is the element order only for storage that is
+        // contiguous along the last axis (row-major); other layouts are left to the default evaluator
+        template <typename array_t>
+        static constexpr bool is_row_major()
+        {
+            constexpr auto axis = meta::contiguous_axis_v<meta::remove_cvref_t<array_t>>;
+            if constexpr (meta::is_fail_v<meta::remove_cvref_t<decltype(axis)>>) {
+                return true; // no declared layout (flat / nested buffers): row-major
+            } else {
+                return axis == -1;
+            }
+        }
+
         template <typename output_t>
         constexpr auto eval_unary(output_t& output) const
         {
@@ -53,6 +66,9 @@ namespace nmtools::array
             // TODO: do not static assert, tell the caller some combo is not supported
             static_assert(meta::is_floating_point_v<element_type>
                 , "currently only support float/double");
+
+            if (!is_row_major<output_t>() || !is_row_major<decltype(*nmtools::get<0>(view.array))>())
+                return false;
 
             auto inp_ptr = nmtools::data(*nmtools::get<0>(view.array));
             auto out_ptr = nmtools::data(output);
@@ -114,6 +130,9 @@ namespace nmtools::array
 
             auto lhs_array_ptr = nmtools::get<0>(input_array_ptr);
             auto rhs_array_ptr = nmtools::get<1>(input_array_ptr);
+
+            if (!is_row_major<output_t>() || !is_row_major<decltype(*lhs_array_ptr)>() || !is_row_major<decltype(*rhs_array_ptr)>())
+                return false;
 
             auto lhs_data_ptr = nmtools::data(*lhs_array_ptr);
             auto rhs_data_ptr = nmtools::data(*rhs_array_ptr);
@@ -185,6 +204,9 @@ namespace nmtools::array
                 , "currently only support numeric types");
 
             auto input_array_ptr = get_array(view);
+
+            if (!is_row_major<output_t>() || !is_row_major<decltype(*input_array_ptr)>())
+                return false;
 
             auto inp_data_ptr = nmtools::data(*input_array_ptr);
 
@@ -387,6 +409,9 @@ namespace nmtools::array
 
             auto lhs_ptr = nmtools::get<0>(input_array_ptr);
             auto rhs_ptr = nmtools::get<1>(input_array_ptr);
+
+            if (!is_row_major<output_t>() || !is_row_major<decltype(*lhs_ptr)>() || !is_row_major<decltype(*rhs_ptr)>())
+                return false;
 
             auto lhs_data_ptr = nmtools::data(*lhs_ptr);
             auto rhs_data_ptr = nmtools::data(*rhs_ptr);
